@@ -108,6 +108,9 @@ impl Report {
     pub fn new() -> Self {
         Default::default()
     }
+    pub fn clone_for_finish(&self) -> Report {
+        self.clone()
+    }
     pub fn count(&mut self, k: &str, n: u64) {
         *self.counters.entry(k.to_string()).or_insert(0) += n;
     }
@@ -224,6 +227,32 @@ pub fn load_known_findings() -> Vec<KnownFinding> {
 
 /// Write evidence, replays, print verdict lines; returns the process exit code.
 pub fn finish(meta: &Meta, ctx: &Ctx, report: &Report) -> i32 {
+    // A universe that cannot be built because the forge - a real node running the code under test,
+    // asked to extend or replay chains of blocks it has itself built and fully verified - fails is
+    // not a problem of the machinery: ckb refuses (or cannot compute the next block of) an honest
+    // chain.  On the unchanged tree this never happens (the universes are built on every run); when
+    // it happens after a change, the change broke the node, and the failure is reported as a
+    // violation instead of a machinery error.
+    let mut owned = report.clone_for_finish();
+    {
+        const NODE_FAILURES: [(&str, &str); 6] = [
+            ("next_epoch_ext", "next-epoch-unknown"),
+            ("forge replay of block", "verified-block-refused-on-replay"),
+            ("forge could not attach block", "verified-block-not-attached"),
+            ("reward: ", "reward-not-computable"),
+            ("dao: ", "dao-field-not-computable"),
+            ("mmr: ", "chain-root-not-computable"),
+        ];
+        let mut rest = vec![];
+        for e in std::mem::take(&mut owned.machinery_errors) {
+            match NODE_FAILURES.iter().find(|(pat, _)| e.contains(pat)) {
+                Some((_, kind)) => owned.violation(format!("honest-chain/{kind}"), format!("while building or replaying a universe of honestly built, fully verified blocks the node failed: {e}"), json!({"family": "universe-construction", "error": e})),
+                None => rest.push(e),
+            }
+        }
+        owned.machinery_errors = rest;
+    }
+    let report = &owned;
     let wall = ctx.started.elapsed().as_secs_f64();
     let known = load_known_findings();
     let mut unknown = vec![];
@@ -325,6 +354,11 @@ pub fn finish(meta: &Meta, ctx: &Ctx, report: &Report) -> i32 {
         }
         if report.machinery_errors.len() > 4 {
             eprintln!("MACHINERY-ERROR {}: ... and {} more", meta.id, report.machinery_errors.len() - 4);
+        }
+        // a violation that was found stays a verdict (the machinery trouble after it is usually its
+        // consequence: a dead thread, a universe that can no longer be built)
+        if !unknown.is_empty() {
+            return 1;
         }
         return 2;
     }
